@@ -71,7 +71,7 @@ def _relevant(effects):
             a, b = _relevant(e[2]), _relevant(e[3])
             if a or b:
                 out.append(("if", e[1], tuple(a), tuple(b)))
-        elif e[0] in ("store", "raise", "del"):
+        elif e[0] in ("store", "raise", "del", "return"):
             out.append(e)
         elif e[0] == "call" and (e[1].startswith("self.") or e[1].startswith("cls.")) and not e[1].startswith(("self.logger", "self._logger", "self.__class__")):
             out.append(e)
@@ -84,10 +84,12 @@ def signature(paths):
     for p in paths:
         c = " and ".join(("" if pol else "not ") + t for t, pol in p.conds) or "always"
         rel = _relevant(p.effects)
+        early = [e for e in rel if _only(e, "return")]
+        rel = [e for e in rel if not _only(e, "return")]
         stores = [e for e in rel if e[0] != "raise" and not _only_raises(e)]
         rs = [e for e in rel if e[0] == "raise" or _only_raises(e)]
         if p.kind == "return":
-            sig["returns"].append(f"[{c}] {p.value}")
+            sig["returns"].append(f"[{c}] " + (summary.show_effects(early) + " ; then " if early else "") + f"{p.value}")
         elif p.kind == "raise":
             sig["raises"].append(f"[{c}] {p.value}")
         else:
@@ -99,14 +101,18 @@ def signature(paths):
     return {k: sorted(v) for k, v in sig.items()}
 
 
-def _only_raises(e) -> bool:
-    if e[0] == "raise":
+def _only(e, kind) -> bool:
+    if e[0] == kind:
         return True
     if e[0] == "rep":
-        return all(_only_raises(x) for x in e[2])
+        return bool(e[2]) and all(_only(x, kind) for x in e[2])
     if e[0] == "if":
-        return all(_only_raises(x) for x in e[2] + e[3])
+        return bool(e[2] + e[3]) and all(_only(x, kind) for x in e[2] + e[3])
     return False
+
+
+def _only_raises(e) -> bool:
+    return _only(e, "raise")
 
 
 def reference_paths(source: str, params=None):
